@@ -47,12 +47,19 @@ type kvAddData struct {
 func (kgdb *KVInterfaceGDB) AddVertex(vertices []*gdbi.Vertex) error {
 	err := kgdb.kvg.kv.BulkWrite(func(tx kvi.KVBulkWrite) error {
 		var bulkErr *multierror.Error
+		changed := false
 		for _, vert := range vertices {
 			if err := insertVertex(tx, kgdb.kvg.idx, kgdb.graph, vert.ToVertex()); err != nil {
 				bulkErr = multierror.Append(bulkErr, err)
+			} else {
+				changed = true
 			}
 		}
-		kgdb.kvg.ts.Touch(kgdb.graph)
+		// the timestamp tells clients that the graph changed: only touch it when
+		// at least one element was stored
+		if changed {
+			kgdb.kvg.ts.Touch(kgdb.graph)
+		}
 		return bulkErr.ErrorOrNil()
 	})
 	return err
@@ -122,12 +129,17 @@ func insertEdge(tx kvi.KVBulkWrite, idx *kvindex.KVIndex, graph string, edge *gr
 func (kgdb *KVInterfaceGDB) AddEdge(edges []*gdbi.Edge) error {
 	err := kgdb.kvg.kv.BulkWrite(func(tx kvi.KVBulkWrite) error {
 		var bulkErr *multierror.Error
+		changed := false
 		for _, edge := range edges {
 			if err := insertEdge(tx, kgdb.kvg.idx, kgdb.graph, edge.ToEdge()); err != nil {
 				bulkErr = multierror.Append(bulkErr, err)
+			} else {
+				changed = true
 			}
 		}
-		kgdb.kvg.ts.Touch(kgdb.graph)
+		if changed {
+			kgdb.kvg.ts.Touch(kgdb.graph)
+		}
 		return bulkErr.ErrorOrNil()
 	})
 	return err
@@ -136,19 +148,27 @@ func (kgdb *KVInterfaceGDB) AddEdge(edges []*gdbi.Edge) error {
 func (kgdb *KVInterfaceGDB) BulkAdd(stream <-chan *gdbi.GraphElement) error {
 	err := kgdb.kvg.kv.BulkWrite(func(tx kvi.KVBulkWrite) error {
 		var bulkErr *multierror.Error
+		changed := false
 		for elem := range stream {
 			if elem.Vertex != nil {
 				if err := insertVertex(tx, kgdb.kvg.idx, kgdb.graph, elem.Vertex.ToVertex()); err != nil {
 					bulkErr = multierror.Append(bulkErr, err)
+				} else {
+					changed = true
 				}
 				continue
 			}
 			if elem.Edge != nil {
 				if err := insertEdge(tx, kgdb.kvg.idx, kgdb.graph, elem.Edge.ToEdge()); err != nil {
 					bulkErr = multierror.Append(bulkErr, err)
+				} else {
+					changed = true
 				}
 				continue
 			}
+		}
+		if changed {
+			kgdb.kvg.ts.Touch(kgdb.graph)
 		}
 		return bulkErr.ErrorOrNil()
 	})
